@@ -6,9 +6,10 @@ own OS thread against one real TableManager with two shards; a deterministic
 scheduler grants one step at a time (a step = the code between two
 verif_sched::point calls) in the order of the schedule, then lets the threads
 finish in index order.  The model is coq/Model/Subscribe.v (run_sched / finish).
-Observation: the BgpEvent sequence received on Subscription.rx, the final
-iter_reach / iter_reach_post, the fold of the events (bmp.rs apply_snapshot)
-and the PeerUp/PeerDown events track_peer_up/down forward."""
+Observation: the final iter_reach (with the stale mark of each path's Source) /
+iter_reach_post, and per subscription slot the BgpEvent sequence received on
+Subscription.rx, its fold (bmp.rs apply_snapshot) and the PeerUp/PeerDown events
+track_peer_up/down forward."""
 import json, os, glob, itertools
 from vp import val, coqrun, rustrun
 from vp.val import cN, cbool, clist, cpair, copt
@@ -16,33 +17,45 @@ from vp.val import cN, cbool, clist, cpair, copt
 def key_coq(k):
     return '{| k_peer := %s; k_sh := %s; k_ix := %s; k_pid := %s |}' % tuple(cN(x) for x in k)
 
+OPC = {'up': 3, 'down': 4, 'reset': 5, 'pol': 6, 'grdown': 7, 'dstale': 8, 'dropfam': 9, 'nhv': 10, 'mllgr': 11, 'dllgr': 12, 'unsub': 13}
+COQ = {'up': 'Up', 'down': 'Down', 'reset': 'SoftReset', 'pol': 'SetPol', 'grdown': 'GrDown', 'dstale': 'DropStale',
+       'dropfam': 'DropFam', 'nhv': 'Nhv', 'mllgr': 'MarkLlgr', 'dllgr': 'DropLlgr'}
+NSTEPS = {'sub': 3, 'unsub': 1, 'ins': 2, 'rem': 2, 'up': 1, 'down': 4, 'grdown': 4, 'dstale': 3, 'dropfam': 3,
+          'reset': 3, 'pol': 1, 'nhv': 3, 'mllgr': 3, 'dllgr': 3}
+
+def op_slot(o):
+    return o[1] if len(o) > 1 else 0
+
 def op_to_val(o):
     t = o[0]
-    if t == 'sub': return [0]
+    if t == 'sub': return [0, op_slot(o)]
+    if t == 'unsub': return [13, o[1]]
     if t == 'ins': return [1] + list(o[1]) + [o[2]]
     if t == 'rem': return [2] + list(o[1])
-    return [{'up': 3, 'down': 4, 'reset': 5, 'pol': 6}[t], o[1]]
+    if t == 'nhv': return [10, o[1], 0]
+    return [OPC[t], o[1]]
 
 def op_to_coq(o):
     t = o[0]
-    if t == 'sub': return 'Subscribe'
+    if t == 'sub': return '(Subscribe %d%%nat)' % op_slot(o)
+    if t == 'unsub': return '(Unsubscribe %d%%nat)' % o[1]
     if t == 'ins': return '(Ins %s %s)' % (key_coq(o[1]), cN(o[2]))
     if t == 'rem': return '(Rem %s)' % key_coq(o[1])
-    return '(%s %s)' % ({'up': 'Up', 'down': 'Down', 'reset': 'SoftReset', 'pol': 'SetPol'}[t], cN(o[1]))
-
-NSTEPS = {'sub': 3, 'ins': 2, 'rem': 2, 'up': 1, 'down': 4, 'reset': 3, 'pol': 1}
+    return '(%s %s)' % (COQ[t], cN(o[1]))
 
 def canon_events(evs):
-    """events of one critical section come out in hash-map order: sort every maximal run
-    of consecutive pre-policy (resp. post-policy) events by key, stably"""
+    """events of one critical section come out in hash-map order.  Two route events
+    commute in the subscriber's fold unless they have the same key and the same kind
+    (pre- / post-policy), so every maximal block of consecutive route events is put
+    in its normal form: sorted by (key, kind), stably.  PeerUp / PeerDown /
+    EndOfSnapshot stay where they are."""
     out, i = [], 0
     while i < len(evs):
-        k = evs[i][0]
-        if k in (0, 1):
+        if evs[i][0] in (0, 1):
             j = i
-            while j < len(evs) and evs[j][0] == k:
+            while j < len(evs) and evs[j][0] in (0, 1):
                 j += 1
-            out += sorted(evs[i:j], key=lambda e: e[1])
+            out += sorted(evs[i:j], key=lambda e: (e[1], e[0]))
             i = j
         else:
             out.append(evs[i]); i += 1
@@ -51,30 +64,33 @@ def canon_events(evs):
 class Prop:
     pid = 'C18'
     props_file = 'Props/C18.v'
-    required_theorems = ['subscriber_fold_eq_rib', 'last_event_is_current', 'peer_down_only_after_up',
-                         'subscriber_fold_eq_rib_legacy_refuted', 'subscriber_fold_eq_rib_legacy_limit_refuted']
-    correspondence_name = ('Model/Subscribe.v run_sched/finish vs daemon/src/table_manager.rs TableManager::{subscribe, insert_route, '
-                           'remove_route, soft_reset_in, unregister_peer, peer_up, peer_down} on real threads under a deterministic '
-                           'scheduler (harness/daemon/table_manager_hx.rs verif_sub_cases), fold by bmp.rs apply_snapshot / track_peer_*')
-    rule = ('a case is (programs of <= 3 threads, schedule); non-trivial when the subscriber registers while another thread still has '
-            'steps to run and at least one route event is delivered after EndOfSnapshot or during the snapshot walk; distinct = distinct '
-            '(programs, canonical event sequence); the thorough tier adds every interleaving (12600 schedules) of subscribe || one session thread '
-            '(two inserts / insert+remove / session down) || soft_reset_in after a policy change')
+    required_theorems = ['subscriber_fold_eq_rib', 'subscriber_fold_eq_rib_no_stale', 'last_event_is_current', 'peer_down_only_after_up',
+                         'subscriber_fold_eq_rib_legacy_refuted', 'subscriber_fold_eq_rib_legacy_limit_refuted',
+                         'subscriber_fold_eq_rib_legacy_purge_refuted']
+    correspondence_name = ('Model/Subscribe.v run_sched/finish vs daemon/src/table_manager.rs TableManager::{subscribe, unsubscribe, insert_route, '
+                           'remove_route, soft_reset_in, unregister_peer, drop_families, drop_stale_families, mark_llgr_stale, drop_llgr_stale_families, update_nexthop_validity, peer_up, '
+                           'peer_down} on real threads under a deterministic scheduler (harness/daemon/table_manager_hx.rs verif_sub_cases), '
+                           'fold by bmp.rs apply_snapshot / track_peer_*')
+    rule = ('a case is (programs of <= 3 threads, schedule); non-trivial when a subscription registers while another thread still has '
+            'steps to run and at least one route event is delivered to it; distinct = distinct (programs, canonical event sequences); '
+            'every run enumerates ALL interleavings of subscribe with each mutator kind (16, incl. mark_llgr_stale and drop_llgr_stale_families) from each of six start states (classes '
+            'race:<mutator>:<state>), two-subscriber and unsubscribe/resubscribe classes, and the track_peer state x input matrix; '
+            'the thorough tier adds every interleaving (12600 schedules) of subscribe || one session thread || soft_reset_in')
     exhaustive = {'quick': False, 'thorough': False}
     trusted_base = [
         'C18: atomic steps are the stretches between scheduling points (before every shard-lock acquisition and before every operation); '
         'std::sync::Mutex / ArcSwap / tokio mpsc are assumed sequentially consistent and the sends inside one critical section are treated '
         'as one step (sound for the per-key fold because same-key events are serialised by the shard lock and a peer\'s operations come from its own session thread)',
-        'C18: the Adj-RIB-In is abstracted to (peer, prefix, path id) -> (attribute-block identity, filtered); next hop and timestamp are constant; '
-        'the import policy is "reject these neighbours"; one address family; two shards; one subscriber',
+        'C18: the Adj-RIB-In is abstracted to (peer, prefix, path id) -> (attribute-block identity, filtered, session of the Source); next hop and timestamp are constant; '
+        'the import policy is "reject these neighbours"; one address family; two shards',
         'C18: the consumer is apply_snapshot (bmp.rs) applied to every AdjRibIn/AdjRibInPost event in channel order, PeerDown forgets the peer '
-        '(RFC 7854 s4.9); BmpClient::serve reconstructs peer state from GlobalHandle instead of the PeerUp/PeerDown seen during the snapshot '
-        'phase: that glue, the gRPC watch stream and mrt.rs are not modelled',
+        '(RFC 7854 s4.9); a path retained stale after its peer\'s PeerDown may therefore be missing from a subscriber that saw the PeerDown until it is purged or re-announced; '
+        'BmpClient::serve reconstructs peer state from GlobalHandle instead of the PeerUp/PeerDown seen during the snapshot phase: that glue, the gRPC watch stream and mrt.rs are not modelled',
     ]
     assumptions = [
-        'all route operations of one peer are issued by one thread (its session task); soft_reset_in and policy changes may come from any thread',
-        'session down is unregister_peer(all families dropped) followed by peer_down, as in event/mod.rs; graceful-restart retention (stale paths kept after PeerDown, purged without Adj-RIB-In events) is not part of the modelled histories',
-        'at most one subscribe(true) per case; unsubscribe is not modelled',
+        'all route operations of one peer are issued by one thread (its session task); soft_reset_in, purges started by timers, policy changes and reachability reports may come from any thread',
+        'session down is unregister_peer followed by peer_down, as in event/mod.rs, either dropping every family or (graceful restart) retaining them stale',
+        'a subscription slot is used by one subscribe(true) call; resubscribing takes a new slot, as the daemon allocates a new SubscriptionId',
     ]
 
     # ---- rendering
@@ -103,6 +119,85 @@ class Prop:
             out.append(self.case_from_json(json.load(open(f))['case']))
         return out
 
+    # ---- classes enumerated on every run
+    @staticmethod
+    def _interleavings(counts):
+        def rec(left):
+            if sum(left) == 0:
+                yield ()
+                return
+            for t in range(len(left)):
+                if left[t]:
+                    l2 = list(left); l2[t] -= 1
+                    for r in rec(l2):
+                        yield (t,) + r
+        return rec(list(counts))
+
+    def enum_cases(self):
+        out = []
+        K = lambda p, sh, ix=0, pid=0: (p, sh, ix, pid)
+        # start states (run sequentially by thread 1 before the race)
+        states = {
+            'routes_both_shards': [('ins', K(1, 0), 1), ('ins', K(1, 1), 2), ('ins', K(2, 0), 3)],
+            'filtered_by_policy': [('pol', 1), ('ins', K(1, 0), 1), ('ins', K(1, 1), 2)],
+            'stale_retained': [('ins', K(1, 0), 1), ('ins', K(1, 1), 2), ('grdown', 1), ('up', 1), ('ins', K(1, 0), 3)],
+            # attribute blocks 4.. carry NO_LLGR (the boundary 3 / 4 on both shards, another peer's NO_LLGR path, a stale one)
+            'nollgr_routes': [('ins', K(1, 0), 4), ('ins', K(1, 1), 3), ('ins', K(1, 1, 1), 5), ('ins', K(2, 0), 6)],
+            'nollgr_stale': [('ins', K(1, 0), 4), ('ins', K(1, 1), 7), ('grdown', 1)],
+            # Sources marked LLGR-stale, paths retained; another peer's and a later session's paths are not marked
+            'llgr_marked': [('ins', K(1, 0), 1), ('ins', K(1, 1), 2), ('ins', K(2, 0), 3), ('mllgr', 1), ('ins', K(2, 1), 1)],
+        }
+        mutators = {
+            'ins_new': [('ins', K(1, 1, 1), 0)], 'ins_replace': [('ins', K(1, 0), 0)], 'rem': [('rem', K(1, 0))],
+            'rem_absent': [('rem', K(1, 0, 3))], 'down': [('down', 1)], 'grdown': [('grdown', 1)],
+            'dstale': [('dstale', 1)], 'dropfam': [('dropfam', 1)], 'reset_after_policy_change': [('pol', 2), ('reset', 1)],
+            'reset': [('reset', 1)], 'pol': [('pol', 2)], 'up': [('up', 1)], 'nhv': [('nhv', 1)], 'addpath': [('ins', K(1, 0, 0, 1), 2)],
+            'mllgr': [('mllgr', 1)], 'dllgr': [('dllgr', 1)],
+        }
+        for sname, pre in states.items():
+            npre = sum(NSTEPS[o[0]] for o in pre)
+            for mname, mut in mutators.items():
+                nm = sum(NSTEPS[o[0]] for o in mut)
+                progs = [[('sub', 0)], pre + mut]
+                for perm in self._interleavings([3, nm]):
+                    out.append(dict(pols=[[1], [2]], lims=[], progs=progs, sched=[1] * npre + list(perm),
+                                    cls='race:%s:%s' % (mname, sname)))
+        # two subscriptions: the second registers while the first is live / snapshotting, a writer in between
+        for perm in self._interleavings([3, 3, 2]):
+            out.append(dict(pols=[[1]], lims=[], progs=[[('sub', 0)], [('sub', 1)], [('ins', K(1, 0), 1), ('ins', K(1, 1), 2)]],
+                            sched=[2, 2] + list(perm), cls='two_subscribers:race_insert'))
+        for perm in self._interleavings([3, 3, 3]):
+            if perm[0] != 0:
+                continue
+            out.append(dict(pols=[[1]], lims=[], progs=[[('sub', 0)], [('sub', 1)], [('ins', K(1, 0), 1), ('ins', K(1, 1), 2), ('pol', 1), ('reset', 1)]],
+                            sched=[2, 2, 2, 2, 2] + list(perm), cls='two_subscribers:race_soft_reset'))
+        # unsubscribe, then subscribe again (a new subscription) while a session is writing
+        for perm in self._interleavings([4, 4]):
+            out.append(dict(pols=[], lims=[], progs=[[('sub', 0), ('unsub', 0)], [('ins', K(1, 0), 1), ('ins', K(1, 1), 2)]],
+                            sched=list(perm), cls='unsubscribe:race_insert'))
+        for perm in self._interleavings([7, 4]):
+            if perm[:4] != (0, 0, 0, 0):
+                continue
+            out.append(dict(pols=[], lims=[], progs=[[('sub', 0), ('unsub', 0), ('sub', 1)], [('ins', K(1, 0), 1), ('rem', K(1, 0)), ('ins', K(1, 1), 2)]],
+                            sched=[1, 1] + list(perm), cls='resubscribe:race_session'))
+        # track_peer_up / track_peer_down: every state x input of the pairing, as delivered
+        for seq in itertools.product(['up', 'down'], repeat=3):
+            out.append(dict(pols=[], lims=[], progs=[[('sub', 0)], [(x, 1) for x in seq] + [('up', 2), ('down', 2)]],
+                            sched=[0, 0, 0], cls='peer_updown:%s' % '_'.join(seq)))
+        # prefix limit: refused insert racing the snapshot (limit 0 / 1 / 2 boundaries)
+        for lim in (0, 1, 2):
+            for perm in self._interleavings([3, 4]):
+                out.append(dict(pols=[], lims=[[1, lim]], progs=[[('sub', 0)], [('ins', K(1, 0), 1), ('ins', K(1, 1), 2), ('ins', K(1, 0, 1), 3)]],
+                                sched=[1, 1] + list(perm), cls='prefix_limit_%d:race' % lim))
+        # a session back after a graceful restart (fresh prefix counter) withdraws a path retained from the
+        # previous session: Table::remove decrements the counter below zero (wraps), the next new prefix is refused
+        for lim in (1, 2):
+            pre = [('ins', K(1, 0), 1), ('grdown', 1)]
+            for perm in self._interleavings([3, 4]):
+                out.append(dict(pols=[], lims=[[1, lim]], progs=[[('sub', 0)], pre + [('rem', K(1, 0)), ('ins', K(1, 1), 2)]],
+                                sched=[1] * 6 + list(perm), cls='prefix_limit_%d:withdraw_retained_after_gr' % lim))
+        return out
+
     # ---- generation
     def gen_prog(self, rng, peers, n, with_limit):
         ops = []
@@ -110,38 +205,47 @@ class Prop:
             x = rng.random()
             p = rng.choice(peers)
             k = (p, rng.choice([0, 1]), rng.choice([0, 0, 1]), rng.choice([0, 0, 0, 1]))
-            if x < 0.45: ops.append(('ins', k, rng.choice([0, 1, 2, 3])))
-            elif x < 0.62: ops.append(('rem', k))
-            elif x < 0.70: ops.append(('up', p))
-            elif x < 0.78: ops.append(('down', p))
-            elif x < 0.90: ops.append(('reset', rng.choice([1, 2, 3])))
+            if x < 0.40: ops.append(('ins', k, rng.choice([0, 1, 2, 3, 3, 4, 5])))
+            elif x < 0.55: ops.append(('rem', k))
+            elif x < 0.62: ops.append(('up', p))
+            elif x < 0.68: ops.append(('down', p))
+            elif x < 0.75: ops.append(('grdown', p))
+            elif x < 0.80: ops.append(('dstale', p))
+            elif x < 0.83: ops.append(('dropfam', p))
+            elif x < 0.86: ops.append(('mllgr', p))
+            elif x < 0.88: ops.append(('dllgr', p))
+            elif x < 0.92: ops.append(('reset', rng.choice([1, 2, 3])))
+            elif x < 0.95: ops.append(('nhv', rng.choice([1, 2])))
             else: ops.append(('pol', rng.choice([0, 1, 2])))
         return ops
 
     def gen_cases(self, rng, tier):
-        cases = []
+        cases = self.enum_cases()
         n = 900 if tier == 'quick' else 6000
         for k in range(n):
             pols = [[1], [2, 3]] if k % 2 == 0 else [[1, 2], [3]]
             lims = [] if k % 4 else [[1, 1], [2, 2]]
-            shape = k % 5
+            shape = k % 6
+            sub0 = [('sub', 0)] + ([('unsub', 0), ('sub', 1)] if k % 11 == 5 else [])
             if shape == 0:      # sequential history, subscribe somewhere inside it
-                progs = [[('sub',)], self.gen_prog(rng, [1, 2, 3], rng.randint(2, 9), bool(lims))]
+                progs = [sub0, self.gen_prog(rng, [1, 2, 3], rng.randint(2, 9), bool(lims))]
             elif shape in (1, 2):  # subscriber against two sessions
-                progs = [[('sub',)], self.gen_prog(rng, [1], rng.randint(1, 5), bool(lims)),
+                progs = [sub0, self.gen_prog(rng, [1], rng.randint(1, 5), bool(lims)),
                          self.gen_prog(rng, [2, 3], rng.randint(1, 5), bool(lims))]
             elif shape == 3:    # policy change + soft reset racing the snapshot
-                progs = [[('sub',)],
+                progs = [sub0,
                          [('ins', (1, 0, 0, 0), 1), ('ins', (1, 1, 0, 0), 2)] + self.gen_prog(rng, [1], rng.randint(0, 2), False),
                          [('pol', rng.choice([1, 2])), ('reset', 1)] + self.gen_prog(rng, [2], rng.randint(0, 2), False)]
-            else:               # the writers start first
-                progs = [self.gen_prog(rng, [1, 2], rng.randint(1, 4), bool(lims)) + [('sub',)],
+            elif shape == 4:    # the writers start first
+                progs = [self.gen_prog(rng, [1, 2], rng.randint(1, 4), bool(lims)) + [('sub', 0)],
                          self.gen_prog(rng, [3], rng.randint(1, 5), bool(lims))]
-            total = sum(NSTEPS[o[0]] for p in progs for o in p)
+            else:               # two subscriptions
+                progs = [[('sub', 0)], [('sub', 1)] + ([('unsub', 1)] if rng.random() < 0.3 else []),
+                         self.gen_prog(rng, [1, 2], rng.randint(1, 6), bool(lims))]
             weights = [sum(NSTEPS[o[0]] for o in p) for p in progs]
+            total = sum(weights)
             sched = []
             left = list(weights)
-            # a random interleaving; the subscriber's steps are spread over the run
             while sum(left) > 0 and len(sched) < total:
                 t = rng.choices(range(len(progs)), weights=[w + 0.01 for w in left])[0]
                 if left[t] > 0:
@@ -163,24 +267,11 @@ class Prop:
                    [('ins', (1, 0, 0, 0), 1), ('rem', (1, 0, 1, 0))],
                    [('down', 1)]]
         for w in writers:
-            progs = [[('sub',)], [('ins', (1, 0, 1, 0), 3), ('ins', (1, 1, 1, 0), 0)] + w, [('pol', 1), ('reset', 1)]]
+            progs = [[('sub', 0)], [('ins', (1, 0, 1, 0), 3), ('ins', (1, 1, 1, 0), 0)] + w, [('pol', 1), ('reset', 1)]]
             base = [1, 1, 1, 1, 2]
             for perm in self._interleavings([3, 4, 3]):
-                out.append(dict(pols=[[1], [2]], lims=[], progs=progs, sched=base + list(perm)))
+                out.append(dict(pols=[[1], [2]], lims=[], progs=progs, sched=base + list(perm), cls='thorough:sub_session_reset'))
         return out
-
-    @staticmethod
-    def _interleavings(counts):
-        def rec(left):
-            if sum(left) == 0:
-                yield ()
-                return
-            for t in range(len(left)):
-                if left[t]:
-                    l2 = list(left); l2[t] -= 1
-                    for r in rec(l2):
-                        yield (t,) + r
-        return rec(list(counts))
 
     # ---- running
     def run_impl(self, cases, tier):
@@ -193,8 +284,9 @@ class Prop:
     def canon(self, case, obs):
         if obs == [-1]:
             return obs
-        evs, rib_pre, rib_post, fpre, fpost, fwd = obs
-        return [canon_events(evs), sorted(rib_pre), sorted(rib_post), sorted(fpre), sorted(fpost), fwd]
+        rib_pre, rib_post, subs = obs
+        return [sorted(rib_pre), sorted(rib_post),
+                [[canon_events(s[0]), sorted(s[1]), sorted(s[2]), s[3]] if s else [] for s in subs]]
 
     # ---- Spec oracle on the implementation's observations (python mirror of Spec/SubscribeSpec.v)
     @staticmethod
@@ -216,79 +308,62 @@ class Prop:
     def oracle(self, c, obs):
         if obs == [-1]:
             return 'panic or deadlock in the real code under this schedule'
-        evs, rib_pre, rib_post, fpre, fpost, fwd = obs
-        subscribed = any(o[0] == 'sub' for p in c['progs'] for o in p)
-        if not subscribed:
-            return None if not evs else 'events delivered without a subscription'
-        if [4] not in evs:
-            return 'EndOfSnapshot never delivered'
-        for kind, rib, name in ((0, rib_pre, 'pre-policy'), (1, rib_post, 'post-policy')):
-            m, last = self.fold(evs, kind)
-            want = {tuple(k): v for k, v in rib}
-            if m != want:
-                diff = sorted(set(m.items()) ^ set(want.items()))
-                return '%s Adj-RIB-In reconstructed by the subscriber differs from the RIB: %s (subscriber %s, RIB %s)' % (
-                    name, diff[:3], sorted(m.items())[:6], sorted(want.items())[:6])
-            for k, v in last.items():
-                if want.get(k) != v:
-                    return 'last %s event for %s says %s, the RIB holds %s' % (name, list(k), v, want.get(k))
-        up = set()
-        for e in fwd:
-            if e[0] == 2: up.add(e[1])
-            elif e[0] == 3:
-                if e[1] not in up:
-                    return 'PeerDown for %d forwarded without a forwarded PeerUp' % e[1]
-                up.discard(e[1])
-        # the harness-side fold (real apply_snapshot) must agree with the python fold
-        if sorted(map(lambda x: (tuple(x[0]), x[1]), fpre)) != sorted(self.fold(evs, 0)[0].items()):
-            return 'apply_snapshot fold of the pre-policy events differs from the reference fold'
-        if sorted(map(lambda x: (tuple(x[0]), x[1]), fpost)) != sorted(self.fold(evs, 1)[0].items()):
-            return 'apply_snapshot fold of the post-policy events differs from the reference fold'
+        rib_pre, rib_post, subs = obs
+        subscribed = set(op_slot(o) for p in c['progs'] for o in p if o[0] == 'sub')
+        gone = set(o[1] for p in c['progs'] for o in p if o[0] == 'unsub')
+        stale = set(tuple(k) for k, v, st in rib_pre if st)
+        for j, s in enumerate(subs):
+            if j not in subscribed:
+                if s and s[0]:
+                    return 'events delivered to subscription %d, which nobody asked for' % j
+                continue
+            if not s:
+                return 'subscription %d was never created' % j
+            evs, fpre, fpost, fwd = s
+            if [4] not in evs:
+                return 'subscription %d: EndOfSnapshot never delivered' % j
+            # the harness-side fold (real apply_snapshot) must agree with the reference fold
+            if sorted(map(lambda x: (tuple(x[0]), x[1]), fpre)) != sorted(self.fold(evs, 0)[0].items()):
+                return 'subscription %d: apply_snapshot fold of the pre-policy events differs from the reference fold' % j
+            if sorted(map(lambda x: (tuple(x[0]), x[1]), fpost)) != sorted(self.fold(evs, 1)[0].items()):
+                return 'subscription %d: apply_snapshot fold of the post-policy events differs from the reference fold' % j
+            up = set()
+            for e in fwd:
+                if e[0] == 2: up.add(e[1])
+                elif e[0] == 3:
+                    if e[1] not in up:
+                        return 'subscription %d: PeerDown for %d forwarded without a forwarded PeerUp' % (j, e[1])
+                    up.discard(e[1])
+            if j in gone:
+                continue            # an unsubscribed consumer makes no claim about later changes
+            for kind, rib, name in ((0, [(k, v) for k, v, st in rib_pre], 'pre-policy'), (1, rib_post, 'post-policy')):
+                m, last = self.fold(evs, kind)
+                want = {tuple(k): v for k, v in rib}
+                for k in set(m) | set(want):
+                    if m.get(k) == want.get(k):
+                        continue
+                    if k in stale and k not in m:
+                        continue    # retained stale after the peer's PeerDown: forgotten by this consumer, not yet purged
+                    return 'subscription %d: %s Adj-RIB-In reconstructed by the subscriber differs from the RIB at %s: subscriber %s, RIB %s (subscriber %s, RIB %s)' % (
+                        j, name, list(k), m.get(k), want.get(k), sorted(m.items())[:6], sorted(want.items())[:6])
+                for k, v in last.items():
+                    if want.get(k) != v and not (k in stale and v is None):
+                        return 'subscription %d: last %s event for %s says %s, the RIB holds %s' % (j, name, list(k), v, want.get(k))
         return None
 
     def in_known_class(self, kf, c, obs, why):
-        if kf['id'] == 'C18-1':
-            # the class: the history contains an insert for a peer with a prefix limit (the only
-            # inserts that can be rejected after having been announced) and the mismatch concerns such a peer
-            lim_peers = set(p for p, _ in c['lims'])
-            return bool(lim_peers) and any(o[0] == 'ins' and o[1][0] in lim_peers for p in c['progs'] for o in p) and \
-                any(('[%d, ' % p) in why or ('(%d, ' % p) in why for p in lim_peers)
         return False
-
-    def shrink(self, c, why):
-        """drop operations / schedule entries while the implementation still fails the Spec oracle"""
-        cur = dict(c)
-        for _ in range(40):
-            cands = []
-            for t, prog in enumerate(cur['progs']):
-                for i, o in enumerate(prog):
-                    if o[0] != 'sub':
-                        progs = [list(p) for p in cur['progs']]
-                        del progs[t][i]
-                        cands.append(dict(cur, progs=progs))
-            if cur['sched']:
-                cands.append(dict(cur, sched=cur['sched'][:-1]))
-            if not cands:
-                break
-            obs, err = self.run_impl(cands, 'quick')
-            if obs is None:
-                break
-            nxt = next((cd for cd, o in zip(cands, obs) if self.oracle(cd, o)), None)
-            if nxt is None:
-                break
-            cur = nxt
-        return cur
 
     def nontrivial_key(self, c, obs):
         if obs == [-1]:
             return None
-        evs = obs[0]
-        if [4] not in evs:
-            return None
-        end = evs.index([4])
-        live = [e for e in evs[end + 1:] if e[0] in (0, 1)]
-        if live or any(e[0] in (0, 1) for e in evs[:end]):
-            return (json.dumps(c['progs']), json.dumps(canon_events(evs)))
+        subs = obs[2]
+        sig = []
+        for s in subs:
+            if s and [4] in s[0] and any(e[0] in (0, 1) for e in s[0]):
+                sig.append(json.dumps(canon_events(s[0])))
+        if sig:
+            return (json.dumps(c['progs']), tuple(sig))
         return None
 
     def classify(self, c, obs):
@@ -297,11 +372,17 @@ class Prop:
             for o in p:
                 tags.append('op_' + o[0])
         if c['lims']: tags.append('with_prefix_limit')
+        if c.get('cls'):
+            tags.append('enum_' + c['cls'])
+            tags.append('enumclass_' + c['cls'].split(':')[0])
         if obs != [-1]:
-            evs = obs[0]
-            if [4] in evs:
-                end = evs.index([4])
-                if any(e[0] in (0, 1) for e in evs[end + 1:]): tags.append('live_events_after_snapshot')
-                if any(e[0] == 3 for e in evs): tags.append('peer_down_delivered')
-                if len(evs[:end]) > 0: tags.append('snapshot_nonempty')
+            for s in obs[2]:
+                if s and [4] in s[0]:
+                    evs = s[0]
+                    end = evs.index([4])
+                    if any(e[0] in (0, 1) for e in evs[end + 1:]): tags.append('live_events_after_snapshot')
+                    if any(e[0] == 3 for e in evs): tags.append('peer_down_delivered')
+                    if len(evs[:end]) > 0: tags.append('snapshot_nonempty')
+            if any(st for _, _, st in obs[0]): tags.append('stale_paths_retained_at_end')
+            if sum(1 for s in obs[2] if s) >= 2: tags.append('two_subscriptions')
         return sorted(set(tags))
